@@ -91,6 +91,11 @@ class Snapshot:
 
 
 class ScriptSnapshot(Snapshot):
+    def start_snapshot(self):
+        # The captured numbers are raw values.
+        super().start_snapshot()
+        self.append('units raw\n')
+
     def setting(self, reg, value):
         self.append('{} {:.0f} '.format(reg.name.lower(), value))
 
